@@ -50,16 +50,65 @@ def check(ctx):
     _r2(ctx)
     _r3(ctx)
     _r4(ctx)
-    # the pieces of a piecewise fit (same reactants and products, adjacent windows) are different reactions to the default
-    # duplicate search, which compares the reactions themselves -- window included -- not a coarser key (shared with C15.R3)
-    from .c15 import _r3 as dup_rule
-    ctx.absorb(lambda sub: dup_rule(sub, package(sub.tree)), "R5", only=lambda o: o.key in ("mode string/default", "check_list") or o.outcome == "VIOLATION" and o.key.startswith("mode"))
-    ctx.floor("R5", "default-mode comparison", len([o for o in ctx.obs if o.rule == "R5"]), 1)
+    _r5(ctx)
     # inside its window a reaction acts: the window lives in the guard of k[i] only; every reaction of the list contributes its
     # terms to the equations unconditionally (no reaction is dropped from the ODE by a test on its window) -- shared with C01.R2/R3
     from ..odemodel import model as odemodel
     from .c01 import reaction_sites
     reaction_sites(ctx, odemodel(ctx.tree), "R6", "R6")
+
+
+def _r5(ctx):
+    """The pieces of a piecewise fit (same reactants and products, adjacent windows) are different reactions to the default
+    duplicate search: in the default mode the objects compared are the reactions themselves -- window included -- not a coarser
+    key.  The compared list is found by ROLE: the sequence a loop of find_duplicate_reaction (helpers put back) walks, through
+    enumerate / tqdm, whose value is chosen by tests on the `mode` parameter; how the first-seen table is kept is C15's business."""
+    from .c15 import _mode_leaf
+    pkg = package(ctx.tree)
+    NF = "naunet/network.py"
+    pkg.method("Network", "find_duplicate_reaction")
+    fn = pkg.expanded("Network", "find_duplicate_reaction")
+    ctx.saw(NF, "Network.find_duplicate_reaction")
+    fl = Flow(fn, NF, resolver=lambda name: pkg.resolve("Network", name)[1])
+    from ..valueflow import strip_transparent
+    RL = ("attr", ("param", "self"), "reaction_list")
+    MODE = ("param", "mode")
+
+    def walked(it_):
+        it_ = strip_transparent(simp(it_))
+        if it_[0] == "call" and it_[1] == ("global", "enumerate") and it_[2]:
+            return walked(it_[2][0])
+        return it_
+
+    def by_mode(v):
+        return v[0] in ("phi", "ifexp") and any(x == MODE for x in walk(v[1]))
+    cands = []
+    for lp in fl.all_loops.values():
+        v = walked(lp.iter)
+        if by_mode(v) and v not in [c for c, _ in cands]:
+            cands.append((v, lp.line))
+    if not cands:
+        # the dispatch may sit in a helper that could not be put back: the lists handed to helpers of the class
+        for f in fl.facts:
+            if f.kind == "call" and f.value is not None and f.value[0] == "meth":
+                for a in f.value[3]:
+                    v = walked(a)
+                    if by_mode(v) and v not in [c for c, _ in cands]:
+                        cands.append((v, f.line))
+    W = (NF, fn.lineno)
+    if not cands:
+        ctx.unrec("R5", "default-mode comparison", W, "cannot find the per-mode list of compared objects (a sequence chosen by tests on `mode` that a loop walks)")
+    for v, line in cands:
+        leaves = {m: _mode_leaf(v, m) for m in ("none", "brief", "text")}
+        if leaves["none"] is None:
+            ctx.unrec("R5", "default-mode comparison", (NF, line), f"mode dispatch not recognised: {show(v)[:100]}")
+            continue
+        ok = leaves["none"] == RL
+        ctx.check(ok, "R5", "default-mode comparison", (NF, line),
+                  "the default mode compares the reactions themselves (temperature window included)" if ok else
+                  "the default mode does not compare the reactions themselves: reactions that differ only in their temperature window (the pieces of a "
+                  "piecewise fit) can be taken for duplicates", expected="check_list = self.reaction_list", found=show(leaves["none"])[:100])
+    ctx.floor("R5", "default-mode comparison", len([o for o in ctx.obs if o.rule == "R5"]), 1)
 
 
 def _r1(ctx):
